@@ -337,7 +337,7 @@ func (b *binder) runSeq() error {
 	dump := filepath.Join(c.Scratch, "seq")
 	t0 := time.Now()
 	res, err := tlc.Run(tlc.Opts{SpecDir: c.SpecDir("script"), Module: "MCSeq", Config: "MCSeq.cfg", Workers: 2,
-		Timeout: 15 * time.Minute, Scratch: c.Scratch, HeapGB: 6, Extra: []string{"-dump", dump}})
+		Timeout: 15 * time.Minute, Scratch: c.Scratch, HeapGB: 6, Coverage: c.Thorough, Extra: []string{"-dump", dump}})
 	if err != nil {
 		return fmt.Errorf("MCSeq: %w", err)
 	}
@@ -347,6 +347,11 @@ func (b *binder) runSeq() error {
 	c.AddModel(res.Distinct, res.Generated)
 	if err := b.ensureTables(res.Output); err != nil {
 		return err
+	}
+	if c.Thorough {
+		if err := coverageAudit("MCSeq", res, []string{"Init", "Pick", "Evaluate"}); err != nil {
+			return err
+		}
 	}
 	scripts, err := b.parseScripts(res.Output)
 	if err != nil {
